@@ -139,6 +139,56 @@ theorem int_rt (bits : Nat) (hb : 0 < bits) (v : Int) (hlo : -(2 ^ (bits - 1) : 
       simp; omega
 
 example : fmtInt (-128) = [0x2d, 0x31, 0x32, 0x38] ∧ parseInt 8 (fmtInt (-128)) = some (-128) := by decide
+/-! ### booleans: strconv.FormatBool / ParseBool -/
+def strB (s : String) : Bytes := s.toList.map (fun c => c.toNat.toUInt8)
+def fmtBool (b : Bool) : Bytes := if b then [0x74, 0x72, 0x75, 0x65] else [0x66, 0x61, 0x6c, 0x73, 0x65]
+def parseBool (s : Bytes) : Option Bool :=
+  if s = [0x31] || s = [0x74] || s = [0x54] || s = [0x54, 0x52, 0x55, 0x45] || s = [0x74, 0x72, 0x75, 0x65] || s = [0x54, 0x72, 0x75, 0x65] then some true
+  else if s = [0x30] || s = [0x66] || s = [0x46] || s = [0x46, 0x41, 0x4c, 0x53, 0x45] || s = [0x66, 0x61, 0x6c, 0x73, 0x65] || s = [0x46, 0x61, 0x6c, 0x73, 0x65] then some false
+  else none
+theorem bool_rt (b : Bool) : parseBool (fmtBool b) = some b := by cases b <;> decide
+
+/-- the text of an integer is in the syntax `-?(0|[1-9][0-9]*)`: digits only after the optional sign -/
+theorem fmtInt_syntax (v : Int) :
+    (fmtInt v = 0x2d :: fmtNat v.natAbs ∧ v < 0 ∨ fmtInt v = fmtNat v.natAbs ∧ 0 ≤ v) ∧
+      (fmtNat v.natAbs).all isDigit = true ∧ fmtNat v.natAbs ≠ [] := by
+  refine ⟨?_, (fmtNat_spec _).1, (fmtNat_spec _).2.1⟩
+  unfold fmtInt
+  by_cases h : v < 0
+  · simp [h]
+  · simp [h]; omega
+
+/-! line protocol -/
+def hexValI (c : Char) : UInt8 :=
+  if c.isDigit then (c.toNat - 48).toUInt8 else (c.toNat - 87).toUInt8
+def parseHexI : List Char → Bytes
+  | a :: b :: rest => (hexValI a * 16 + hexValI b) :: parseHexI rest
+  | _ => []
+def toHexI (bs : Bytes) : String :=
+  let hd (n : UInt8) : Char := if n < 10 then Char.ofNat (48 + n.toNat) else Char.ofNat (87 + n.toNat)
+  String.ofList (bs.flatMap fun b => [hd (b / 16), hd (b % 16)])
+/-- `ifmt <decimal int>` / `ufmt <decimal nat>`: the model's text, hex -/
+def ifmtLine (line : String) : String :=
+  match line.trimAscii.toString.toInt? with | some v => toHexI (fmtInt v) | none => "bad"
+def ufmtLine (line : String) : String :=
+  match line.trimAscii.toString.toNat? with | some v => toHexI (fmtNat v) | none => "bad"
+/-- `iparse <bits> <s|u> <hex text>` -/
+def iparseLine (line : String) : String :=
+  match line.splitOn " " with
+  | [bits, sg, h] =>
+    let b := bits.toNat!
+    let s := parseHexI h.toList
+    if sg == "s" then (match parseInt b s with | some v => toString v | none => "err")
+    else (match parseNat b s with | some v => toString v | none => "err")
+  | [bits, sg] =>   -- empty text
+    let b := bits.toNat!
+    if sg == "s" then (match parseInt b [] with | some v => toString v | none => "err")
+    else (match parseNat b [] with | some v => toString v | none => "err")
+  | _ => "bad"
+def bparseLine (line : String) : String :=
+  match parseBool (parseHexI line.trimAscii.toString.toList) with
+  | some true => "true" | some false => "false" | none => "err"
+
 #print axioms int_rt
 #print axioms uint_rt
 end IntRT
